@@ -8,6 +8,7 @@ package main
 // and then advances I.  Nothing is matched by name.
 
 import (
+	"math"
 	"fmt"
 	"go/token"
 	"go/types"
@@ -21,6 +22,7 @@ type Cursor struct {
 	G       *ssa.Function
 	Unm     *ssa.Call // the invoke of UnmarshalBinary inside G
 	Width   *ssa.Call // the invoke of width() inside G
+	Rest    *ssa.Call // G takes the input from a helper of the reader that returns nil or data[offset:]: that call
 	Why     string
 }
 
@@ -52,7 +54,38 @@ func (p *Prog) Cursor() *Cursor {
 				if !ok || !call.Call.IsInvoke() || call.Call.Value != ssa.Value(fn.Params[1]) || call.Call.Method.Name() != "UnmarshalBinary" {
 					continue
 				}
-				sl, ok := call.Call.Args[0].(*ssa.Slice)
+				var base ssa.Value = fn.Params[0]
+				arg := call.Call.Args[0]
+				var restCall *ssa.Call
+				if rc, isCall := arg.(*ssa.Call); isCall {
+					// the input comes from a helper of the reader that returns nil or data[offset:] of its receiver
+					if h := rc.Call.StaticCallee(); h != nil && len(h.Blocks) > 0 && len(rc.Call.Args) == 1 && rc.Call.Args[0] == ssa.Value(fn.Params[0]) {
+						var hs *ssa.Slice
+						okH := true
+						for _, hb := range h.Blocks {
+							ret, isRet := terminator(hb).(*ssa.Return)
+							if !isRet {
+								continue
+							}
+							if len(ret.Results) != 1 {
+								okH = false
+								continue
+							}
+							if isNilConst(ret.Results[0]) {
+								continue
+							}
+							if x, isSl := ret.Results[0].(*ssa.Slice); isSl && (hs == nil || hs == x) {
+								hs = x
+							} else {
+								okH = false
+							}
+						}
+						if okH && hs != nil {
+							arg, base, restCall = hs, h.Params[0], rc
+						}
+					}
+				}
+				sl, ok := arg.(*ssa.Slice)
 				if !ok || sl.Low == nil || sl.High != nil {
 					continue
 				}
@@ -63,9 +96,10 @@ func (p *Prog) Cursor() *Cursor {
 				}
 				df, ok1 := dl.X.(*ssa.FieldAddr)
 				ifa, ok2 := il.X.(*ssa.FieldAddr)
-				if !ok1 || !ok2 || df.X != ssa.Value(fn.Params[0]) || ifa.X != ssa.Value(fn.Params[0]) {
+				if !ok1 || !ok2 || df.X != base || ifa.X != base {
 					continue
 				}
+				cur.Rest = restCall
 				cur.T, cur.D, cur.I, cur.G, cur.Unm = nt, df.Field, ifa.Field, fn, call
 				// E: the error-typed field that receives the result
 				for _, r := range *call.Referrers() {
@@ -181,6 +215,7 @@ func (cur *Cursor) CheckLemmas(p *Prog, c *Check, rule string) bool {
 	// K3.b — I is written only in G
 	// K3.c — stores to E outside G store non-nil values (sticky error)
 	nD, nI, nE := 0, 0, 0
+	nBulk := 0
 	for _, fn := range p.AllFuncs() {
 		var pr *Prover
 		for _, b := range fn.Blocks {
@@ -209,6 +244,12 @@ func (cur *Cursor) CheckLemmas(p *Prog, c *Check, rule string) bool {
 									continue
 								}
 							}
+						}
+						// moving the offset over the rest of the data in one step (`b.i += copy(dst, b.data[b.i:])`): the
+						// new offset is proven within [old offset, len(data)]
+						if cur.bulkAdvanceOK(p, fn, s) {
+							nBulk++
+							continue
 						}
 						fail(tn+".offset written outside get", posOf(p, ins), "the reader's offset is stored to in "+qname(fn)+", outside the guarded primitive "+qname(g), Violated)
 					}
@@ -271,7 +312,7 @@ func (cur *Cursor) CheckLemmas(p *Prog, c *Check, rule string) bool {
 		}
 	}
 	if okAll {
-		c.OK(rule, tn+" field discipline", p.Pos(g.Pos()), fmt.Sprintf("data is written only at construction (%d sites), the offset only inside %s (%d sites), the error elsewhere only with non-nil values (%d sites)", nD, qname(g), nI, nE))
+		c.OK(rule, tn+" field discipline", p.Pos(g.Pos()), fmt.Sprintf("data is written only at construction (%d sites), the offset only inside %s (%d sites, %d of them bulk advances over the rest of the data proven within bounds), the error elsewhere only with non-nil values (%d sites)", nD, qname(g), nI, nBulk, nE))
 	}
 
 	// G — the guarded primitive, path by path.  G is loop free; every entry→return path is walked with the state
@@ -301,6 +342,7 @@ func (cur *Cursor) CheckLemmas(p *Prog, c *Check, rule string) bool {
 		loadsEntry map[ssa.Value]bool
 		isNil      map[ssa.Value]bool // value known nil (true) / non-nil (false) on this path
 		facts      []Lin
+		alts       [][]Lin // alternative sets of facts (what a helper of the reader returned); empty = one empty alternative
 		acted      string // first store/call made while the entry error was not known to be nil
 		unmSeen    bool
 		unknown    string
@@ -309,6 +351,7 @@ func (cur *Cursor) CheckLemmas(p *Prog, c *Check, rule string) bool {
 		c := *st
 		c.iStores = append([]*ssa.Store(nil), st.iStores...)
 		c.facts = append([]Lin(nil), st.facts...)
+		c.alts = append([][]Lin(nil), st.alts...)
 		c.loadsE, c.loadsEntry, c.isNil = map[ssa.Value]ssa.Value{}, map[ssa.Value]bool{}, map[ssa.Value]bool{}
 		for k, v := range st.loadsE {
 			c.loadsE[k] = v
@@ -346,6 +389,33 @@ func (cur *Cursor) CheckLemmas(p *Prog, c *Check, rule string) bool {
 			}
 		}
 		return nil, false, false
+	}
+	// the length of the reader's data, also where G itself never loads the field
+	dlenOf := func() Lin {
+		if ld := cur.dLoad(pr); ld != nil {
+			return pr.lenOf(ld)
+		}
+		k := fmt.Sprintf("len(*(&(%s).%d))", pr.key(recv), cur.D)
+		pr.atomRange(k, 0, math.MaxInt64)
+		return linAtom(k)
+	}
+	inconsistent := func(b *ssa.BasicBlock, facts []Lin) bool { return pr.Prove(b, linConst(-1), facts...) }
+	// proveAll: the goal holds under every alternative that is consistent with the path
+	proveAll := func(b *ssa.BasicBlock, goal Lin, st *pathState) bool {
+		alts := st.alts
+		if len(alts) == 0 {
+			alts = [][]Lin{nil}
+		}
+		for _, a := range alts {
+			fs := append(append([]Lin(nil), st.facts...), a...)
+			if inconsistent(b, fs) {
+				continue
+			}
+			if !pr.Prove(b, goal, fs...) {
+				return false
+			}
+		}
+		return true
 	}
 	npaths, nsticky, nerr, nadv := 0, 0, 0, 0
 	stickyBad := false
@@ -430,13 +500,13 @@ func (cur *Cursor) CheckLemmas(p *Prog, c *Check, rule string) bool {
 					found = true
 				}
 			}
-			dlen := pr.lenOf(cur.dLoad(pr))
+			dlen := dlenOf()
 			switch {
 			case !found || !val.equal(old.add(wl)):
 				why = "the offset is not advanced by exactly width(): " + val.String()
-			case !pr.Prove(is.Block(), dlen.sub(val), st.facts...):
+			case !proveAll(is.Block(), dlen.sub(val), st):
 				why = "cannot prove offset+width <= len(data) at the advancing store (facts: " + describeFacts(pr, is.Block()) + ")"
-			case !pr.Prove(is.Block(), val, st.facts...):
+			case !proveAll(is.Block(), val, st):
 				why = "cannot prove the new offset non-negative"
 			}
 		}
@@ -487,6 +557,29 @@ func (cur *Cursor) CheckLemmas(p *Prog, c *Check, rule string) bool {
 					act("decodes at " + posOf(p, x))
 					st.unmSeen = true
 				case x == cur.Width:
+				case x == cur.Rest:
+					// what the helper hands back: nothing (the offset has reached the end), or data[offset:]
+					lr := pr.lenOf(x)
+					dl := dlenOf()
+					var off Lin
+					haveOff := false
+					for _, gb := range g.Blocks {
+						for _, gi := range gb.Instrs {
+							if ld, ok := gi.(*ssa.UnOp); ok && ld.Op == token.MUL {
+								if lb, ok := cur.isField(ld.X, cur.I); ok && lb == recv {
+									off, haveOff = pr.lin(ld), true
+								}
+							}
+						}
+					}
+					if !haveOff {
+						st.unknown = "the offset is never loaded in the primitive: what " + x.String() + " returns cannot be related to it"
+						continue
+					}
+					st.alts = [][]Lin{
+						{lr.scale(-1)}, // len(rest) == 0 (a nil or empty slice)
+						{lr.sub(dl.sub(off)), dl.sub(off).sub(lr)}, // len(rest) == len(data) - offset
+					}
 				default:
 					usesRecv := false
 					for _, a := range x.Call.Args {
@@ -544,16 +637,26 @@ func (cur *Cursor) CheckLemmas(p *Prog, c *Check, rule string) bool {
 					}
 				} else {
 					cf := pr.condFacts(t.Cond, truth)
-					contradicts := false
-					for _, gq := range cf {
-						if pr.Prove(b, gq.scale(-1).addConst(-1), ns.facts...) {
-							contradicts = true
+					ns.facts = append(ns.facts, cf...)
+					// infeasible when every alternative contradicts the path
+					alts := ns.alts
+					if len(alts) == 0 {
+						alts = [][]Lin{nil}
+					}
+					feasible := false
+					var keep [][]Lin
+					for _, a := range alts {
+						if !inconsistent(b, append(append([]Lin(nil), ns.facts...), a...)) {
+							feasible = true
+							keep = append(keep, a)
 						}
 					}
-					if contradicts {
+					if !feasible {
 						continue
 					}
-					ns.facts = append(ns.facts, cf...)
+					if len(ns.alts) > 0 {
+						ns.alts = keep
+					}
 				}
 				walk(b.Succs[side], ns, depth+1)
 			}
@@ -578,6 +681,57 @@ func (cur *Cursor) CheckLemmas(p *Prog, c *Check, rule string) bool {
 		fail(cons+"#exits", p.Pos(g.Pos()), "no path advances the offset", Undecided)
 	}
 	return okAll
+}
+
+// bulkAdvanceOK: the store st (in fn, outside the guarded primitive) moves the offset of a reader to a value
+// proven to lie between the old offset and the length of the reader's data.
+func (cur *Cursor) bulkAdvanceOK(p *Prog, fn *ssa.Function, st *ssa.Store) bool {
+	base, ok := cur.isField(st.Addr, cur.I)
+	if !ok {
+		return false
+	}
+	pr := NewProver(p, fn)
+	pr.cur = cur
+	pr.assumeContracts()
+	// the data length of this reader object
+	var dlen Lin
+	have := false
+	if al, isAl := base.(*ssa.Alloc); isAl && al.Referrers() != nil {
+		for _, r := range *al.Referrers() {
+			fa, ok := r.(*ssa.FieldAddr)
+			if !ok || fa.Field != cur.D || fa.Referrers() == nil {
+				continue
+			}
+			for _, r2 := range *fa.Referrers() {
+				if ds, ok := r2.(*ssa.Store); ok && ds.Addr == ssa.Value(fa) {
+					dlen, have = pr.lenOf(ds.Val), true
+				}
+			}
+		}
+	}
+	if !have {
+		k := fmt.Sprintf("len(*(&(%s).%d))", pr.key(base), cur.D)
+		pr.atomRange(k, 0, math.MaxInt64)
+		dlen = linAtom(k)
+	}
+	val := pr.lin(st.Val)
+	// the old offset: the load of the same field this value was computed from
+	var old *Lin
+	for _, b := range fn.Blocks {
+		for _, ins := range b.Instrs {
+			if ld, ok := ins.(*ssa.UnOp); ok && ld.Op == token.MUL {
+				if lb, ok := cur.isField(ld.X, cur.I); ok && lb == base && b.Dominates(st.Block()) {
+					l := pr.lin(ld)
+					old = &l
+				}
+			}
+		}
+	}
+	if old == nil {
+		return false
+	}
+	b := st.Block()
+	return pr.Prove(b, val.sub(*old)) && pr.Prove(b, dlen.sub(val)) && pr.Prove(b, val)
 }
 
 // nilTestOf: cond==truth tests a value against nil: (the value, is-nil on this side).
